@@ -101,6 +101,17 @@ Lib == INSTANCE HandOff WITH Strict <- FALSE
 RefinesStatementBuf == Lib!BufSpec
 RefinesStatementVal == Lib!ValSpec
 
+\* LAWS of the macro actions (checked by TLC as ASSUMEs on every run of this module): a burst is exactly
+\* its single steps, for every short prefix state and every burst of up to 3 pushes / 4 assignments
+SmallSeqs(S, n) == UNION {[1..k -> S] : k \in 0..n}
+ElemsOfP(p) == {<<p, s>> : s \in 1..NPush}
+ASSUME BurstIsItsSinglePushes ==
+  \A p \in Producers : \A pre \in SmallSeqs(ElemsOfP(p), 2) : \A other \in SmallSeqs({<<0, 1>>}, 1) : \A vs \in SmallSeqs(ElemsOfP(p), 3) :
+    LET pd == [q \in Producers |-> IF q = p THEN pre ELSE other]
+    IN BurstPushF(pd, p, vs) = FoldPush(pd, p, vs)
+ASSUME BurstIsItsSingleAssigns ==
+  \A a \in SmallSeqs(1..MaxAssign, 2) : \A vs \in SmallSeqs(1..MaxAssign, 4) : BurstAssignF(a, vs) = FoldAssign(a, vs)
+
 \* finite universes for the cfg files (sequences cannot be written there)
 MCElems == {<<p, s>> : p \in Producers, s \in 1..NPush}
 MCVals  == 1..MaxAssign
